@@ -87,7 +87,7 @@ func (x *Exec) libStatic(st *State, f *Frame, callee *ssa.Function, c *ssa.CallC
 	case "strings.EqualFold":
 		return Sc{Eq(lowerOf(st, sc(0)), lowerOf(st, sc(1)))}, true
 	case "strings.Split":
-		x.noteLib("strings.Split: result has Count+1 >= 1 elements; sep absent ==> [s]; elements otherwise unknown")
+		x.noteLib("strings.Split: result has Count+1 >= 1 elements; sep absent ==> [s]; two elements ==> s == a + sep + b with sep in neither; the first element is sep-free and s starts with it + sep; elements otherwise unknown")
 		r := st.newRef("split")
 		n := reg.freshConst("split_n", SInt)
 		st.assume(Cmp(">=", n, IntLit(1)))
@@ -96,6 +96,12 @@ func (x *Exec) libStatic(st *State, f *Frame, callee *ssa.Function, c *ssa.CallC
 		nosep := Not(App(SBool, "str.contains", sc(0), sc(1)))
 		st.assume(Implies(And(nosep, Not(Eq(sc(1), StrLit("")))), And(Eq(n, IntLit(1)), Eq(e0, sc(0)))))
 		st.assume(Implies(Not(nosep), Cmp(">=", n, IntLit(2))))
+		// exactly two parts: s == parts[0] + sep + parts[1], and sep occurs in neither part
+		e1 := st.loadAt(ElemAddr{r, IntLit(1), types.Typ[types.String]}, types.Typ[types.String]).(Sc).T
+		st.assume(Implies(And(Eq(n, IntLit(2)), Not(Eq(sc(1), StrLit("")))), And(Eq(sc(0), strConcat(strConcat(e0, sc(1)), e1)),
+			Not(App(SBool, "str.contains", e0, sc(1))), Not(App(SBool, "str.contains", e1, sc(1))))))
+		// the first part never contains the separator and is a prefix of s followed by it
+		st.assume(Implies(And(Cmp(">=", n, IntLit(2)), Not(Eq(sc(1), StrLit("")))), And(App(SBool, "str.prefixof", strConcat(e0, sc(1)), sc(0)), Not(App(SBool, "str.contains", e0, sc(1))))))
 		// the parts are a function of (s, sep): spec functions splitCount / splitPart
 		st.assume(Eq(n, reg.uf("sf_splitCount", SInt, sc(0), sc(1))))
 		eh := st.heap("E|string|", []Sort{SInt, SInt}, SStr)
@@ -115,6 +121,12 @@ func (x *Exec) libStatic(st *State, f *Frame, callee *ssa.Function, c *ssa.CallC
 				Implies(has, And(Eq(ln, IntLit(2)), Eq(sc(0), strConcat(strConcat(a, sc(1)), b)), Not(App(SBool, "str.contains", a, sc(1))))),
 				Implies(Not(has), And(Eq(ln, IntLit(1)), Eq(a, sc(0)))))))
 			st.assume(And(Cmp(">=", ln, IntLit(1)), Cmp("<=", ln, IntLit(2))))
+			// ... functionally: the cut is at the first occurrence of sep
+			ix := App(SInt, "str.indexof", sc(0), sc(1), IntLit(0))
+			sl := App(SInt, "str.len", sc(1))
+			st.assume(Implies(And(has, Not(Eq(sc(1), StrLit("")))), And(
+				Eq(a, App(SStr, "str.substr", sc(0), IntLit(0), ix)),
+				Eq(b, App(SStr, "str.substr", sc(0), Add(ix, sl), Sub(Sub(App(SInt, "str.len", sc(0)), ix), sl))))))
 			return SliceV{r, IntLit(0), ln, strT}, true
 		}
 	case "strings.Join":
